@@ -56,6 +56,11 @@ pub struct Scn {
     /// object_receive_once = false (only with RepeatedValidFdtInstances)
     #[serde(default)]
     pub receive_once_off: bool,
+    /// RepeatedValidFdtInstances: 0 = every instance announces one new object that is never sent; 1 = the instances
+    /// describe NO file at all (an idle sender that keeps publishing); 2 = the announced object (10 bytes, one packet)
+    /// is sent and completes - every later instance no longer lists it
+    #[serde(default)]
+    pub fdt_variant: u8,
     pub session_timeout_ms: Option<u64>,
     /// object_timeout = None: stalled objects only go away with their session (needs a session timeout)
     #[serde(default)]
@@ -110,6 +115,7 @@ pub fn gen(idx: u64, rng: &mut Rng, tier: Tier) -> Scn {
         cleanup_every: *rng.pick(&[0u32, 0, 50, 1]),
         wall_clock: *rng.pick(&[0u8, 0, 0, 1, 2]),
         receive_once_off: kind == Kind::RepeatedValidFdtInstances && rng.chance(0.6),
+        fdt_variant: rng.below(3) as u8,
     }
 }
 
@@ -273,9 +279,34 @@ pub fn run(scn: &Scn, ctx: &Ctx, scratch: &Path) {
                     "<?xml version=\"1.0\" encoding=\"UTF-8\"?><FDT-Instance xmlns=\"urn:IETF:metadata:2005:FLUTE:FDT\" Expires=\"4100000000\"><File TOI=\"{}\" Content-Location=\"file:///valid/{}/{}\" Content-Length=\"10\" Transfer-Length=\"10\" FEC-OTI-FEC-Encoding-ID=\"0\" FEC-OTI-Maximum-Source-Block-Length=\"4\" FEC-OTI-Encoding-Symbol-Length=\"16\"/></FDT-Instance>",
                     i, i, pad
                 );
+                let xml = if scn.fdt_variant == 1 {
+                    format!("<?xml version=\"1.0\" encoding=\"UTF-8\"?><FDT-Instance xmlns=\"urn:IETF:metadata:2005:FLUTE:FDT\" Expires=\"4100000000\"><!-- {} {} --></FDT-Instance>", i, pad)
+                } else {
+                    xml
+                };
                 let pk = wire::packetise_fdt(xml.as_bytes(), 1, i as u32, 1400, None, None);
                 traffic.extend(pk.iter().cloned());
                 traffic.extend(pk);
+                if scn.fdt_variant == 2 {
+                    // the object itself: one symbol of 10 bytes, then the same packet again (second transfer)
+                    let (tl, ol) = wire::field_lens(1, i as u128);
+                    let obj = wire::encode(&Build {
+                        cci_words: 1,
+                        tsi: 1,
+                        tsi_len: tl,
+                        toi: i as u128,
+                        toi_len: ol,
+                        cp: 0,
+                        close_object: true,
+                        fti: Some(Fti { fec: wire::FEC_NOCODE, transfer_length: 10, e: 16, b: Some(4), max_n: None, instance_id: None, z: None, n: None, al: None }),
+                        sbn: 0,
+                        esi: 0,
+                        payload: vec![0x33; 10],
+                        ..Default::default()
+                    });
+                    traffic.push(obj.clone());
+                    traffic.push(obj);
+                }
             }
             block_bytes = 4 * e;
         }
